@@ -59,6 +59,18 @@ let () = serve (fun fn req ->
         (collision (hash_of req) (jhexlist (jfield req "br1")) (jhexlist (jfield req "br2"))
            (jz (jfield req "p1")) (jz (jfield req "p2")) (jbytes (jfield req "w1")) (jbytes (jfield req "w2")))
   | "header_merkle_root" -> JStr (string_of_bytes (header_merkle_root (jbytes (jfield req "header"))))
+  | "txid_preimage" -> of_option of_bytes (txid_preimage (jbytes (jfield req "raw")))
+  | "maybe_verify_raw" ->
+      (* like maybe_verify, but from the bytes the server returned: null when Transaction(raw) / its id raise *)
+      let st = jfield req "st" in
+      let st0 = { t_height = jz (jfield st "height"); t_position = jz (jfield st "position");
+                  t_verified = jbool (jfield st "verified") } in
+      (match maybe_verify_raw (hash_of req) (jhexlist (jfield req "headers")) st0 (jbytes (jfield req "raw"))
+               (jz (jfield req "height")) (jopt jresp (jfield req "arg")) (jresp (jfield req "net")) with
+       | None -> JNull
+       | Some ((st1, out), fetched) ->
+           JObj [ "height", of_z st1.t_height; "position", of_z st1.t_position; "verified", of_bool st1.t_verified;
+                  "outcome", of_outcome out; "fetched", of_bool fetched ])
   | "maybe_verify" ->
       let st = jfield req "st" in
       let st0 = { t_height = jz (jfield st "height"); t_position = jz (jfield st "position");
@@ -86,7 +98,12 @@ let () = serve (fun fn req ->
           { a_served = served.(jint (jfield j "server")); a_raw = jbytes (jfield j "raw");
             a_height = jz (jfield j "height"); a_arg = jopt jresp (jfield j "arg"); a_net = jresp (jfield j "net") })
           (jlist (jfield req "attempts")) in
-      let (present, outs) = attempts (hash_of req) (jnat (jfield req "csize")) (jhexlist (jfield req "checkpoints")) [] atts in
+      (* optional "disk": [[chunk number, index into chunks]] = what the header file holds when it is (re)opened *)
+      let present0 = match jfield_opt req "disk" with
+        | None -> []
+        | Some d -> reopen (hash_of req) (jhexlist (jfield req "checkpoints"))
+                      (SL.map (fun e -> match jlist e with [k; v] -> (jnat k, served.(jint v)) | _ -> raise (Model_error "disk")) (jlist d)) in
+      let (present, outs) = attempts (hash_of req) (jnat (jfield req "csize")) (jhexlist (jfield req "checkpoints")) present0 atts in
       let of_st (st : tx_state) = [ "height", of_z st.t_height; "position", of_z st.t_position; "verified", of_bool st.t_verified ] in
       JObj [ "present", of_list (fun (k, _) -> of_nat k) present;
              "results", of_list (fun o -> match o with
